@@ -226,6 +226,17 @@ def random_layout(r) -> Dict[str, Any]:
             game.append(['OptimumResultTable', 'Declarer;Denomination'])
         if r.random() < 0.2:
             glines.append({'k': 'tag', 'name': r.choice(req), 'val': f'ignored{g}'})
+        if r.random() < 0.3:
+            # additional tags whose names begin or end like the required ones (other
+            # PBN tools write such tags), standing BEFORE the tag they resemble
+            for nm in r.sample(['DealId', 'BoardTitle', 'DealerNote', 'VulnerableSide', 'Dealt', 'XBoard',
+                                'PreDeal', 'Boards'], r.randrange(1, 3)):
+                like = [j for j, gl in enumerate(glines)
+                        if gl['k'] == 'tag' and gl['name'].lower() in nm.lower()]
+                pos = like[0] if like and r.random() < 0.7 else r.randrange(0, len(glines) + 1)
+                v_ = 'look' + str(r.randrange(100))
+                glines.insert(pos, {'k': 'tag', 'name': nm, 'val': v_})
+                game.append([nm, v_])
         if r.random() < 0.2:
             # an additional tag whose line is as long as the format allows, or a
             # multiple of it, give or take one (readers that take a line in pieces)
@@ -430,6 +441,10 @@ def c18_session(job) -> List[Dict[str, Any]]:
                 reader.parse_board_settings(io.StringIO('[Board "nodeal"]\n[Dealer "N"]\n\n[Board "x"]\n'))
             except Exception:  # noqa
                 pass
+        # every 4th export reaches the parser with CR LF line ends (the file was
+        # written in the text mode of a platform that does so, and is read as it is)
+        if sum(map(ord, str(tid))) % 4 == 1:
+            text = text.replace('\r\n', '\n').replace('\n', '\r\n')
         games = reader.parse_all(io.StringIO(text))
         e['games'] = [[[k, v] for k, v in g.items()] for g in games]
         e['reader'] = ['fresh', 'reused', 'reused-after-abandoned-stream'][how]
